@@ -26,6 +26,42 @@ Theorem C01_nil_iff_none_answered : forall (V : Type) (outs : list (outcome V)) 
 Proof. exact nil_iff_none_answered. Qed.
 Print Assumptions C01_nil_iff_none_answered.
 
+(* the error entries are, in order, the failures in the order in which they reached the
+   merging goroutine (the property only asks for the multiset; this is what the code does) *)
+Theorem C01_errors_in_arrival_order : forall (V : Type) (n : nat) (arrivals : list (msg V)),
+  snd (merge_run n arrivals) = merge_error (failures_of V arrivals).
+Proof. exact errors_in_arrival_order. Qed.
+Print Assumptions C01_errors_in_arrival_order.
+
+(* nil vs empty Data (the property is silent): the Data map of the response is nil exactly
+   when a single backend answered and the Data of its payload was nil *)
+Theorem C01_data_nil_iff : forall (V : Type) (n : nat) (arrivals : list (msg V)) (x : resp V),
+  fst (merge_run n arrivals) = Some x ->
+  (data x = None <-> exists p, payloads_of V arrivals = [p] /\ data p = None).
+Proof. exact data_nil_iff. Qed.
+Print Assumptions C01_data_nil_iff.
+
+(* One level below the outcomes: requestPart, from what each backend proxy RETURNED -
+   (response, error), either or both possibly nil - and from how the final select of its
+   goroutine went (a payload may lose against the cancelled context).  The property holds
+   for the effective outcomes: an error wins over a response returned with it, (nil, nil) is
+   one errNullResult entry, a payload that lost the select counts as a cancelled backend. *)
+Theorem C01_merge_spec_from_returns : forall (V : Type)
+    (ocs : list (outcome V * option ekind)) (arrivals : list (msg V)),
+  Permutation arrivals (map (fun oc => request_part (return_of (fst oc)) (snd oc)) ocs) ->
+  2 <= List.length ocs ->
+  merge_spec eq (map (fun oc => effective (fst oc) (snd oc)) ocs) (merge_run (List.length ocs) arrivals).
+Proof. exact merge_spec_from_returns. Qed.
+Print Assumptions C01_merge_spec_from_returns.
+
+(* requestPart delivers what a worker of the goroutine model delivers (LSend / LSendC) *)
+Theorem C01_request_part_worker : forall (V : Type) (ce : ekind) (ret : backend_return V) (choice : option ekind),
+  let own := request_part ret None in
+  request_part ret choice = own \/
+  (choice = Some ce -> request_part ret choice = MF ce /\ route V own = ChP).
+Proof. exact request_part_worker. Qed.
+Print Assumptions C01_request_part_worker.
+
 (* The goroutine layer (Common/Fanout.v instantiated: one goroutine per backend, `parts` and
    `failed` of capacity n, exactly n receives): whatever the interleaving of backend
    returns, sends, receives and the cancellation of the context, when parallelMerge returns
@@ -102,6 +138,17 @@ Theorem C01_model_meets_oracle : forall (V : Type) (veqb : V -> V -> bool)
 Proof. exact model_meets_oracle. Qed.
 Print Assumptions C01_model_meets_oracle.
 
+(* ... also for the case kind CRace (what the backends returned + how each select went) *)
+Theorem C01_model_meets_oracle_from_returns : forall (V : Type) (veqb : V -> V -> bool)
+    (ocs : list (outcome V * option ekind)) (arrivals : list (msg V)),
+  let effs := map (fun oc => effective (fst oc) (snd oc)) ocs in
+  (forall d k v, In d (payload_maps effs) -> In (k, v) d -> veqb v v = true) ->
+  Permutation arrivals (map (fun oc => request_part (return_of (fst oc)) (snd oc)) ocs) ->
+  2 <= List.length ocs ->
+  spec_b veqb effs (merge_run (List.length ocs) arrivals) = true.
+Proof. exact model_meets_oracle_from_returns. Qed.
+Print Assumptions C01_model_meets_oracle_from_returns.
+
 (* the hypothesis 2 <= number of backends is needed *)
 Theorem C01_single_backend_refuted :
   exists (outs : list (outcome nat)) (arrivals : list (msg nat)),
@@ -112,6 +159,8 @@ Print Assumptions C01_single_backend_refuted.
 
 (* ---- non-vacuity: concrete inputs in the order-sensitive branches ---- *)
 Definition P (c : bool) (d : option obj) : msg json := MP {| data := d; complete := c |}.
+Definition data_is_nil (res : result json) : bool :=
+  match fst res with Some x => match data x with None => true | Some _ => false end | None => false end.
 
 (* three backends with overlapping fields, arrival order 2,0,1 *)
 Example C01_ex_overlap :
@@ -185,3 +234,20 @@ Proof.
   eexists. eexists. split; [vm_compute; reflexivity|]. split; [vm_compute; reflexivity|].
   split; [vm_compute; reflexivity|]. split; vm_compute; reflexivity.
 Qed.
+
+(* a payload that loses the select against the cancelled context: one ctx error entry, its
+   fields absent, the response incomplete; with the other choice it is merged *)
+Example C01_ex_race :
+  let a := OPayload true (Some [("m0", JNum "0")]) in
+  let b := OPayload true (Some [("m1", JNum "1")]) in
+  merge_run 2 (map (fun oc => request_part (return_of (fst oc)) (snd oc)) [(a, None); (b, Some ECancelled)])
+  = (Some {| data := Some [("m0", JNum "0")]; complete := false |}, Some [ECancelled]) /\
+  merge_run 2 (map (fun oc => request_part (return_of (fst oc)) (snd oc)) [(a, None); (b, None)])
+  = (Some {| data := Some [("m1", JNum "1"); ("m0", JNum "0")]; complete := true |}, None).
+Proof. split; vm_compute; reflexivity. Qed.
+
+(* nil Data survives only a lone null payload *)
+Example C01_ex_data_nil :
+  data_is_nil (merge_run 2 [P true None; MF ENull]) = true /\
+  data_is_nil (merge_run 2 [P true None; P false None]) = false.
+Proof. split; vm_compute; reflexivity. Qed.
